@@ -6,7 +6,7 @@ from ..ir import conj, show
 from ..kinds import count_of
 from ..rules_heap import _sub, lin, lin_eq
 from ..rules_ift import Rep, split_candidate, weight_mentions, weight_of
-from ..rules_scan import find_best_scans, position_vars
+from ..rules_scan import find_best_scans, ordered_scan
 
 EXPLANATION = (
     "SupervisedOPF.predict (shared by SemiSupervisedOPF) is parsed and normalised; the scan loop's carried "
@@ -36,9 +36,9 @@ def check(chk, repo):
     for li in w.loops.values():
         for bs in find_best_scans(w, li):
             scans.append(bs)
-    scans = [b for b in scans if b.loop.kind == "while"]
+    scans = [b for b in scans if b.loop.kind in ("while", "for") and b.loop.loops]
     if len(scans) != 1:
-        raise AnalysisError(f"SupervisedOPF.predict: expected one best-so-far while-scan, found {len(scans)}")
+        raise AnalysisError(f"SupervisedOPF.predict: expected one best-so-far scan, found {len(scans)}")
     bs = scans[0]
     li = bs.loop
     outer = [w.loops[l] for l in li.loops]
@@ -53,14 +53,19 @@ def check(chk, repo):
     if not okq:
         return
     Q, i, x = nlp
-    pos = position_vars(li)
+    n_nodes = ("attr", G, "n_nodes")
+    sizes = [n_nodes, ("call", ("builtin", "len"), (("attr", G, "nodes"),), ()),
+             ("call", ("builtin", "len"), (("attr", G, "idx_nodes"),), ())]
+    view = ordered_scan(w, bs, sizes)
+    prob = dict(view.problems)
     rep.fn("SCAN-position", fn, "one position variable advances by exactly 1 per iteration, unconditionally",
-           len(pos) == 1, f"position variables found: {sorted(pos)}", line=li.line)
-    if len(pos) != 1:
+           "position" not in prob, prob.get("position", ""), line=li.line)
+    if "position" in prob:
         return
-    jname, jinit = next(iter(pos.items()))
-    J = ("phi", li.lid, jname)
-    rep.fn("SCAN-start", fn, f"{jname} starts at 0", jinit == ("const", 0), f"starts at {show(jinit)}", line=li.line)
+    rep.fn("SCAN-start", fn, "the scan starts right after the first sample of the order",
+           view.first == ("const", 1), f"first position examined is {show(view.first) if view.first else prob.get('start')}",
+           line=li.line)
+    J = view.prev
 
     def order(e):
         return ("idx", ("attr", G, "idx_nodes"), e)
@@ -69,8 +74,8 @@ def check(chk, repo):
         return ("idx", ("attr", G, "nodes"), t)
 
     t0 = order(("const", 0))
-    nxt = order(("bin", "+", *sorted([("const", 1), J], key=repr)))
-    cur = order(J)
+    nxt = order(view.pos)
+    cur = order(J) if J is not None else None
 
     def cand_ok(v, t):
         wgt = split_candidate(v, ("attr", node(t), "cost"), "max")
@@ -93,43 +98,32 @@ def check(chk, repo):
     # any label-like variable that is updated outside the acceptance is a violation
     for n, (a, b) in bs.others.items():
         if b[0] == "sel" or "label" in n:
-            if n != jname and b != ("phi", li.lid, n) and ("predicted_label" in show(b)):
+            if n != view.posname and b != ("phi", li.lid, n) and ("predicted_label" in show(b)):
                 rep.fn("SCAN-label-stray", fn, f"{n} is updated outside the acceptance branch", False,
                        f"{n} becomes '{show(b)[:120]}'", line=li.line)
-    # loop condition
-    cs = conj(li.cond)
-    n_nodes = ("attr", G, "n_nodes")
-    bound = 0
-    for c in cs:
+    # continuation tests
+    B = ("phi", li.lid, bs.best)
+    costs = [("attr", node(nxt), "cost")] + ([("attr", node(cur), "cost")] if cur is not None else [])
+    for c, exact in view.bound:
+        rep.fn("SCAN-bound", fn, "continue while " + show(c), exact,
+               "the scan bound must be exactly the number of training samples (every training sample reachable)",
+               line=li.line)
+    for c in view.exits:
         if c[0] == "cmp" and c[1] in ("<", "<="):
-            d = _sub(lin(c[3]), lin(c[2]))
-            want = {n_nodes: 1, J: -1, 1: -1 if c[1] == "<" else -2}
-            alt = {("call", ("builtin", "len"), (("attr", G, "nodes"),), ()): 1, J: -1, 1: -1 if c[1] == "<" else -2}
-            if lin_eq(d, want) or lin_eq(d, alt):
-                bound += 1
-                rep.fn("SCAN-bound", fn, "while " + show(c), True, "", line=li.line)
+            # early exit: continue while cost(next or current) < / <= best
+            if c[3] == B and c[2] in costs:
+                rep.fn("SCAN-exit", fn, "continue while " + show(c), True, "", line=li.line)
                 continue
-            if d is not None and (J in d) and (n_nodes in d):
-                rep.fn("SCAN-bound", fn, "while " + show(c), False,
-                       "the scan bound must be exactly position < n_nodes - 1 (every training sample reachable)",
-                       line=li.line)
-                bound += 1
-                continue
-            # early exit: cost(next or current) < / <= best
-            B = ("phi", li.lid, bs.best)
-            if c[3] == B and c[2] in (("attr", node(nxt), "cost"), ("attr", node(cur), "cost")):
-                rep.fn("SCAN-exit", fn, "while " + show(c), True, "", line=li.line)
-                continue
-            if c[2] == B and c[3] in (("attr", node(nxt), "cost"), ("attr", node(cur), "cost")):
-                rep.fn("SCAN-exit", fn, "while " + show(c), False,
+            if c[2] == B and c[3] in costs:
+                rep.fn("SCAN-exit", fn, "continue while " + show(c), False,
                        "early exit has the wrong direction: the scan stops while later samples can still improve",
                        line=li.line)
                 continue
-        rep.fn("SCAN-exit", fn, "while " + show(c)[:160], False,
+        rep.fn("SCAN-exit", fn, "continue while " + show(c)[:160], False,
                "continuation test outside the accepted family (bound, or running minimum vs cost of the "
                "next/current sample in conquest order)", line=li.line)
-    rep.fn("SCAN-bound-present", fn, "the scan is bounded by the number of training samples", bound == 1,
-           f"{bound} bound test(s) found", line=li.line)
+    rep.fn("SCAN-bound-present", fn, "the scan is bounded by the number of training samples", len(view.bound) == 1,
+           f"{len(view.bound)} bound test(s) found", line=li.line)
     # result
     after = ("phi", li.lid, next(iter(labs))) if labs else None
     stores = [e for e in w.events if e.kind == "store" and e.target == ("attr", x, "predicted_label")]
